@@ -4,7 +4,7 @@ and undone straight afterwards) and refreshes meta.json's caught_by. Run with no
 usage: reseed.py [ID ...]"""
 import glob, json, os, re, subprocess, sys
 def run(cmd, cwd=None):
-    p = subprocess.run(cmd, shell=True, cwd=cwd, capture_output=True, text=True, timeout=900)
+    p = subprocess.run(cmd, shell=True, cwd=cwd, capture_output=True, text=True, errors="replace", timeout=900)
     return p.returncode, p.stdout + p.stderr
 ids = [c['property_id'] for c in json.load(open('/verif/MANIFEST.json'))['checks']]
 want = sys.argv[1:]
